@@ -24,6 +24,7 @@ verbatim (spec functions, shims, lemmas).  Directives pull real code out of /rep
 Paths: `struct X`, `enum X`, `type X`, `const X`, `fn f`, `impl X`, `impl T for X`,
 `impl X :: fn f`, `mod m :: ...`.
 """
+import hashlib
 import re
 import os
 import json
@@ -424,6 +425,9 @@ class Unit:
         # make the unit undecidable instead of checked).  Inserted before the first extraction directive.
         if extra_items:
             k = next((i for i, l in enumerate(self.tpl) if l.startswith('@item') or l.startswith('@impl') or l.startswith('@fn')), None)
+            if k is None:
+                # the extraction directives sit in included files: right after the opening of the verus! block
+                k = next((i + 1 for i, l in enumerate(self.tpl) if re.match(r'\s*verus!\s*\{', l)), None)
             if k is not None:
                 self.tpl[k:k] = list(extra_items)
                 for l in extra_items:
@@ -437,6 +441,7 @@ class Unit:
         self.havocs = []
         self.lost_anchors = []
         self.degraded_fns = set()
+        self.strict_anchors = False
         self.anchor_fp = {}   # fn id -> list of fingerprints of where each positional anchor attached (drift => degraded)
         self.trait_contracts = []
         self.reduced = []
@@ -707,6 +712,8 @@ class Unit:
                     self.log.append({'rule': 'lost-hint', 'where': where, 'before': needle, 'after': '(ghost hint dropped: anchor not found)'})
                 continue
             fps.append('at %d of %d: %s' % (n, _count(body, needle), needle))
+            if self.strict_anchors:
+                fps.append('context of that anchor: ' + _anchor_context(body, bm, pos))
             if side == 'after':
                 pos += len(needle)
             acount += 1
@@ -795,6 +802,11 @@ class Unit:
                 self.renames.append((mm.group(1), mm.group(2)))
             elif cmd == '@keep-derive':
                 self.keep_derive = arg.split()
+            elif cmd == '@strict-anchors':
+                # every `@at` anchor of this unit is fingerprinted WITH its surroundings (the anchored statement and the one
+                # before it): a refactor that moves code across a hint (a split `let`, two swapped statements) then marks
+                # the function degraded - its refutations need a replayed input - instead of stranding the hint silently
+                self.strict_anchors = True
             elif cmd == '@item':
                 mm = re.match(r'(.*?)((?:\s+(?:fields\([^)]*\)|no-derive))*)$', arg)
                 ispec = mm.group(1).strip()
@@ -984,6 +996,33 @@ class _MergedImpl:
         self.name = parts[0].name
         self.body_open = -2
         self.end = -2
+
+
+def _anchor_context(body, bm, pos):
+    """Normalised text of the statement an anchor sits in, the statement before it and the statement after it."""
+    def back(i):
+        k = i - 1
+        while k >= 0 and bm[k] not in ';{}':
+            k -= 1
+        return k + 1
+    def fwd(i):
+        k = i
+        d = 0
+        while k < len(bm):
+            c = bm[k]
+            if c in '([':
+                d += 1
+            elif c in ')]':
+                d -= 1
+            elif c in ';{}' and d <= 0:
+                return k + 1
+            k += 1
+        return len(bm)
+    a = back(pos)
+    a2 = back(max(a - 1, 0))
+    e = fwd(pos)
+    e2 = fwd(e)
+    return hashlib.sha1(' '.join(body[a2:e2].split()).encode()).hexdigest()[:16]
 
 
 def _count(body, needle):
